@@ -554,13 +554,13 @@ type AloneHeader struct {
 
 // AloneResult is the outcome of decoding a .lzma file.
 type AloneResult struct {
-	Header  AloneHeader
-	Out     []byte
-	Marker  bool
-	MaxDist uint32
-	Ops     []Op
-	States  []int
-	Err     error
+	Header   AloneHeader
+	Out      []byte
+	Marker   bool
+	MaxDist  uint32
+	Ops      []Op
+	States   []int
+	Err      error
 	Trailing int
 }
 
